@@ -626,7 +626,9 @@ impl State {
             if let Some(ref mut rotation_state) = o_rotation_state {
                 rotation_state.shutdown();
             }
-            writer.flush().ok();
+            writer
+                .flush()
+                .unwrap_or_else(|e| eprint_err(ErrorCode::Flush, "flushing failed", &e));
         }
     }
 }
@@ -804,7 +806,9 @@ pub(super) fn start_sync_flusher(am_state: Arc<Mutex<State>>, flush_interval: st
                 (*am_state).lock().map_or_else(
                     |_e| (),
                     |mut state| {
-                        state.flush().ok();
+                        state
+                            .flush()
+                            .unwrap_or_else(|e| eprint_err(ErrorCode::Flush, "flushing failed", &e));
                     },
                 );
             }
